@@ -1,6 +1,7 @@
 /- Line-protocol driver: one request line in, one result line out. -/
 import CoapLite.Driver.Tbl
 import CoapLite.Driver.Bv
+import CoapLite.Driver.Pkt
 
 open CoapLite.Driver
 
@@ -8,6 +9,7 @@ def dispatch (line : String) : String :=
   match words line with
   | "TBL" :: rest => tbl rest
   | "BV" :: rest => bv rest
+  | "PKT" :: rest => pkt rest
   | _ => "bad-domain"
 
 partial def loop (hin : IO.FS.Stream) (hout : IO.FS.Stream) (buf : String) (n : Nat) : IO Unit := do
